@@ -44,7 +44,7 @@ class MetricActionContext(ActionContext):
                 try:
                     getattr(processor, self._convert_type(metric.type))(metric.name, labels, metric.namespace or "deep",
                                                                         metric.help, metric.unit, value)
-                except Exception:
+                except BaseException:
                     # one metric processor failing must not stop the other processors, or the other metrics
                     deep.logging.exception("Failed to process metric %s with %s", metric.name, processor)
 
